@@ -105,6 +105,19 @@ func init() {
 			nCerts = 60
 		}
 		certs := corpus.sampleCerts(rng, nCerts)
+		// binary inputs whose first / last bytes look like text blanks (tab, LF, VT, FF, CR, space, NEL, NBSP): any trimming
+		// of the raw input corrupts them although the library parses them fine
+		edge := map[byte]bool{}
+		for _, cc := range corpus.Certs {
+			last := cc.DER[len(cc.DER)-1]
+			if (last >= 0x09 && last <= 0x0d) || last == 0x20 || last == 0x85 || last == 0xa0 {
+				if !edge[last] {
+					edge[last] = true
+					certs = append(certs, cc)
+				}
+			}
+		}
+		out.Data["der_edge_last_bytes"] = len(edge)
 		invocations := 0
 		addCase := func(flag, path string, pemBlk *pem.Block, b64ok *bool, rawOK bool, observed int, desc map[string]interface{}) {
 			pemC := "None"
